@@ -404,6 +404,40 @@ class Engine:
             ce = [s for _, s in common.parse_counterexample(res.out) if 'lbl' in s]
             return [tuple(s['lbl']) for s in ce[1:]]
 
+    def reach(self, topo, spec, goal, *, timeout=600, bounds=None, judgekw=None, required=True, **cfgkw):
+        """A reachability goal of the specification (an X_* formula, false exactly where the situation of interest has just
+        happened): TLC's counterexample is the shortest behaviour that gets there; it is replayed into the real code with the
+        projected state compared after every step, then run to the end and judged."""
+        with ModelDir(topo, **(bounds or {})) as md:
+            kw = dict(cfgkw)
+            kw['invariants'] = (goal,)
+            res = md.run('reach', topo.mc_cfg(spec, **kw), timeout=timeout)
+        self.rep.add_tlc(f'{topo.name}/{spec}/reach:{goal}', res, 'reachability goal: a behaviour that gets there is wanted')
+        print(f'  [tlc] {topo.name}/{spec}/reach:{goal}: {"reached" if res.violated else ("timeout" if res.timed_out else "NOT reached")} {res.distinct} states {res.wall_s}s', flush=True)
+        if res.error:
+            raise common.MachineryError(f'TLC failed on reachability goal {goal} of {topo.name}: {res.error[-1500:]}')
+        if not res.violated:
+            if required and not res.timed_out:
+                raise common.MachineryError(f'the specification cannot reach {goal} on {topo.name}/{spec}: the situation it stands for is not modelled')
+            self.rep.note(f'reachability goal {goal} on {topo.name}/{spec}: not reached within {timeout}s')
+            return None
+        beh = [s for _, s in common.parse_counterexample(res.out) if 'lbl' in s]
+        r = proto.replay(topo, beh, pipe=SimPipeline(topo, local_clocks=True))
+        pipe = r['pipe']
+        try:
+            self.rep.traces += 1
+            if not r['ok']:
+                self.rep.drift_note(f'{topo.name}/{spec} behaviour reaching {goal}: real code diverges from the model at step '
+                                    f'{r["step"]} {tuple(r["label"])}: {str(r["diff"])[:400]}')
+            finish_prompt(pipe, common.rng(self.ctx, f'reach{goal}'), 200)
+            self.judge_pipe(topo, pipe, {'kind': 'trace', 'topo': topo.name, 'topo_def': topo.to_dict(), 'seed': self.ctx.seed,
+                                         'trace': [list(t) for t in pipe.world.trace], 'pipekw': {},
+                                         'origin': f'TLC behaviour reaching {goal} on {topo.name}/{spec} (depth {len(beh)})'},
+                            **(judgekw or {}))
+        finally:
+            pipe.close()
+        return r['ok']
+
     def stored_schedules(self, prefix, **judgekw):
         """Schedules found by long TLC searches (design mutations whose shortest counterexample needs minutes of model
         checking) are kept under spec/proto/schedules/ and replayed on the real code by the quick tier; the thorough tier
